@@ -186,31 +186,6 @@ Let Inv := inv c e0 st0 clk.
 Lemma wf_hdeps : forall t d, In d (hdeps c t) -> In d (deps c t).
 Proof. destruct Hwf as (ord & _ & _ & _ & _ & H & _). exact H. Qed.
 
-(* a settled task stays settled and its entry is never written again *)
-Lemma settled_stable s s' :
-  Inv s -> step_kind c s s' ->
-  forall d, settled c s d -> settled c s' d /\ env s' d = env s d.
-Proof.
-  intros I K d [S1 S2]. destruct K.
-  - split; [|congruence]. split; [congruence|].
-    intros Hin. apply S2. eapply Permutation_in; [apply Permutation_sym|]; eauto.
-  - subst s'. split; auto. split; [congruence|].
-    intros Hin. apply S2. eapply Permutation_in; [apply Permutation_sym|]; eauto.
-  - destruct (decide_modes c s t todo acc nb r e' H H0) as [HL M]. subst s'.
-    assert (dt : d <> t) by (intros ->; apply S1; rewrite HL, in_app_iff; simpl; auto).
-    split; [|simpl; eapply decide_other; eauto].
-    rewrite HL in S1.
-    destruct M as [(_ & E1 & E2 & _)|[(_ & E1 & E2 & _)|[(_ & E1 & E2 & _)|(_ & E1 & E2 & _)]]];
-      split; rewrite ?E1, ?E2, ?HL; simpl; auto;
-      rewrite ?in_app_iff in *; simpl in *; intuition.
-  - subst s'. split; [split; congruence | reflexivity].
-  - split.
-    + split; [congruence|]. intros Hin. apply S2.
-      eapply Permutation_in; [apply Permutation_sym; eauto | right; auto].
-    + subst s'. simpl. apply publish_other. intros ->. apply S2.
-      eapply Permutation_in; [apply Permutation_sym; eauto | left; auto].
-Qed.
-
 (* ---------- clocked is an invariant ---------- *)
 Lemma clocked_bounded e n : clocked e n -> clock_bounded e n.
 Proof. intros H t. destruct (H t) as (A & B & _). auto. Qed.
@@ -295,7 +270,7 @@ Lemma cons_step s s' :
 Proof.
   intros I C CI K. pose proof I as [Ic _].
   pose proof (clocked_inv s I C) as Cl.
-  pose proof (settled_stable s s' I K) as Stab.
+  pose proof (settled_stable c e0 st0 clk s s' I K) as Stab.
   assert (Hdeps : forall x, In x (F c s) -> forall d, In d (deps c x) ->
                     settled c s' d /\ env s' d = env s d).
   { intros x Hx d Hd. apply Stab. destruct (inv_flight _ _ _ _ _ Ic x Hx) as [_ H]. now apply H. }
